@@ -52,7 +52,15 @@ def make_idmap(n_ids, rnd: random.Random) -> IdMap:
     if 0 in pool:
         pool.remove(0)
         pool.append(rnd.randint(61, 99))
-    pool[rnd.randrange(max(1, n_ids - 2))] = 0      # on one of the universe identifiers, not on a fresh one
+    k0 = rnd.randrange(max(1, n_ids - 2))
+    pool[k0] = 0      # on one of the universe identifiers, not on a fresh one
+    # -1 is what a careless serialiser uses for "no atom": have it in play as a real identifier too
+    if -1 in pool:
+        pool[pool.index(-1)] = rnd.randint(100, 199)
+    if n_ids >= 3:
+        k1 = (k0 + 1 + rnd.randrange(max(1, n_ids - 3))) % max(1, n_ids - 2)
+        if k1 != k0:
+            pool[k1] = -1
     return IdMap({i + 1: pool[i] for i in range(n_ids)})
 
 
@@ -125,9 +133,9 @@ class Engine:
         slot = info["slot"]
         self.n_trans += 1
         self.by_op[name] = self.by_op.get(name, 0) + 1
-        recv_slot = {"A": "A", "B": "B", "C": "C", "AB": "A", "BA": "B"}[slot]
+        recv_slot = {"A": "A", "B": "B", "C": "C", "AB": "A", "BA": "B", "BC": "B"}[slot]
         other_slot = {"AB": "B", "BA": "A"}.get(slot)
-        res_slot = "C" if name == "compose" else "B"
+        res_slot = "C" if (name == "compose" or slot == "BC") else "B"
 
         variants = [dict(swap=False, iter_kind="list")]
         if name == "subgraph":
@@ -238,7 +246,7 @@ class Engine:
     def _same_graph(self, name, g, res, info, rep, pre_t):
         """the result of a JSON round trip / copy compares equal to the source and has its hash"""
         prop = {"json_roundtrip": "C15", "copy": "C10"}[name]
-        pre0 = json.loads(pre_t)[{"A": 0, "B": 1, "C": 2}[{"A": "A", "B": "B", "C": "C", "AB": "A", "BA": "B"}[info["slot"]]]]
+        pre0 = json.loads(pre_t)[{"A": 0, "B": 1, "C": 2}[{"A": "A", "B": "B", "C": "C", "AB": "A", "BA": "B", "BC": "B"}[info["slot"]]]]
         if isinstance(pre0, dict) and pre0.get("odd"):
             return
         self.same_graph_checks = getattr(self, "same_graph_checks", 0) + 1
